@@ -32,8 +32,7 @@ class HelpResolver(DefaultResolver):
     ):  # type: (ResolveResult) -> ResolvedCommand
         result.command.config.enable_lenient_args_parsing()
 
-        resolved_command = super(HelpResolver, self).create_resolved_command(result)
-
-        result.command.config.disable_lenient_args_parsing()
-
-        return resolved_command
+        try:
+            return super(HelpResolver, self).create_resolved_command(result)
+        finally:
+            result.command.config.disable_lenient_args_parsing()
